@@ -250,6 +250,15 @@ NEEDS = {
     "C15-13": "a query-bound variable of which some entries are unresolved, referenced with a continuation (`%v.key`): the unresolved entries are dropped",
     "C16-13": "an unmet SKIP expectation: every rendering shows an empty evaluated list",
     "C18-13": "`json_parse` of the text `null`: dropped instead of a null value",
+    "C03-13": "a negated `in` whose left side is one value that is an EMPTY list (`not Ports in [80, 443]`, `Ports: []`): PASS in both polarities",
+    "C04-13": "a rule name defined twice (PASS and SKIP on one document): the structured report lists it by whichever definition comes last",
+    "C06-13": "`--structured -o json|yaml|sarif` with a rules file that does not parse and nothing failing: exit 0 instead of 5",
+    "C08-13": "`parse_char` on an empty string value: panic",
+    "C11-13": "a short-form sequence tag on an EMPTY sequence (`!And []`): loaded as null plus a stray list",
+    "C13-13": "a boolean on the left of `!=` against a value of another type: satisfied instead of not comparable",
+    "C14-13": "the word form `not empty` / `NOT EMPTY` between a query and its block: rejected, `!empty` still accepted",
+    "C17-13": "a duplicate top-level key whose first-merged value is null: silently replaced instead of the duplicate-key error",
+    "C19-13": "a property that is null in one resource and set in another of the same type: the null is not recorded, the rule FAILs on its template",
 }
 
 
